@@ -115,7 +115,7 @@ type c11wrap struct {
 	name     string
 	sto      blobserver.Storage // memory.Storage, or the harness' raw map store (accepts any bytes under any name: needed for tampering)
 	order    []blob.Ref         // stored refs in insertion order
-	events   []string           // "put", "remove-ok", "remove-fail"
+	events   []string           // "put#<index into written>", "remove-ok", "remove-fail"
 	written  [][]byte           // every byte string ever written
 	names    []string
 	failRm   int // fail the next n RemoveBlobs calls
@@ -159,7 +159,7 @@ func (w *c11wrap) ReceiveBlob(ctx context.Context, br blob.Ref, r io.Reader) (bl
 	if !have {
 		w.order = append(w.order, br)
 	}
-	w.events = append(w.events, "put")
+	w.events = append(w.events, fmt.Sprintf("put#%d", len(w.written)-1))
 	return sb, nil
 }
 func (w *c11wrap) RemoveBlobs(ctx context.Context, blobs []blob.Ref) error {
@@ -315,12 +315,22 @@ func (e *c11env) applyEvents(evs []string, skipPuts int) {
 		e.c.count("background", "job aborted")
 	}
 	for _, ev := range evs {
-		switch ev {
-		case "put":
-			if skipPuts > 0 {
+		if strings.HasPrefix(ev, "put#") {
+			// the single-line meta blob of the foreground receive is told from a packed one by what it decrypts to, not by
+			// its place in the log: a packing goroutine started by the previous receive may write before or after it
+			var idx int
+			fmt.Sscanf(ev, "put#%d", &idx)
+			e.meta.mu.Lock()
+			data := e.meta.written[idx]
+			e.meta.mu.Unlock()
+			if plain, ok := e.decrypt(data); ok && skipPuts > 0 && strings.Count(strings.TrimSuffix(string(plain), "\n"), "\n") == 1 {
 				skipPuts--
 				continue
 			}
+			ev = "put"
+		}
+		switch ev {
+		case "put":
 			e.ops = append(e.ops, "HJobUpload")
 			e.human = append(e.human, "packed meta blob uploaded")
 			e.c.count("background", "packed upload")
